@@ -31,15 +31,19 @@ def _manager_classes():
             self.published = 0
             self.consumed_at = {}     # bus index -> step of consumption
             self.on_yield = None
+            self.subscriptions = 0    # _listen() iterators started
+            self.backend_failures = 0
 
         def _publish(self, data):
             self.published += 1
             self.bus.append((self.bus.step, pickle.dumps(data)))
 
         def _listen(self):
+            self.subscriptions += 1
             while self.take > 0 and self.cursor < len(self.bus):
                 if self.cursor in self.listen_faults:
                     self.listen_faults.remove(self.cursor)
+                    self.backend_failures += 1
                     raise ConnectionError('injected listen() failure')
                 msg = self.bus[self.cursor][1]
                 self.consumed_at[self.cursor] = self.bus.step
@@ -61,15 +65,19 @@ def _manager_classes():
             self.published = 0
             self.consumed_at = {}
             self.on_yield = None
+            self.subscriptions = 0
+            self.backend_failures = 0
 
         async def _publish(self, data):
             self.published += 1
             self.bus.append((self.bus.step, pickle.dumps(data)))
 
         async def _listen(self):
+            self.subscriptions += 1
             while self.take > 0 and self.cursor < len(self.bus):
                 if self.cursor in self.listen_faults:
                     self.listen_faults.remove(self.cursor)
+                    self.backend_failures += 1
                     raise ConnectionError('injected listen() failure')
                 msg = self.bus[self.cursor][1]
                 self.consumed_at[self.cursor] = self.bus.step
@@ -105,6 +113,7 @@ class Host:
                                **cluster.server_kwargs)
         self.sio = self.h.sio
         self.listener_ended = 0
+        self.resubscribed = 0
         self.died = False
         self.logged = []
         # the listener logs through server.logger
@@ -113,6 +122,7 @@ class Host:
     def consume(self, k):
         """Run the real listener loop over the next k unread messages."""
         self.mgr.take = k
+        s0 = self.mgr.subscriptions - self.mgr.backend_failures
 
         def eos():
             return len([1 for e in self.logged if e[0] == 'error' and
@@ -125,6 +135,11 @@ class Host:
             # of a real deployment would be dead from here on
             self.died = True
         self.listener_ended += 1
+        # a subscription is given up only when the backend failed (with
+        # the bundled Kombu / aio_pika backends a new subscription is a new
+        # queue: what was waiting in the old one is lost)
+        self.resubscribed += (self.mgr.subscriptions -
+                              self.mgr.backend_failures) - s0 - 1
         self.h.settle()
 
     def unread(self):
